@@ -14,6 +14,7 @@ import (
 	"github.com/Masterminds/semver/v3"
 	"sigs.k8s.io/yaml"
 
+	"helm.sh/helm/v4/pkg/cmd/search"
 	"helm.sh/helm/v4/pkg/repo"
 
 	"verif/harness/internal/hx"
@@ -54,6 +55,9 @@ type c20IndexOut struct {
 	Merge string              `json:"merge,omitempty"` // class of load(other)+Merge
 	Left2 map[string][]string `json:"left2,omitempty"`
 	Gets2 []string            `json:"gets2,omitempty"`
+	// search.Index.AddRepo (what `helm search repo` does with the loaded index)
+	Search  string `json:"search,omitempty"` // class
+	SearchN [2]int `json:"search_n"`         // entries in the search index for all=false / all=true
 }
 
 func (e c20IEntry) restInvalid() bool {
@@ -157,6 +161,13 @@ func c20IndexCorpus() []any {
 			Queries: []c20IQuery{{"a", ""}, {"b", ""}, {"c", ""}, {"a", "^1.0.0"}, {"a", "bogus!!"}}}},
 		// witness of 7353d5a: Merge into an index that was loaded from a file without an entries key
 		c20Case{Kind: "index", Index: &c20IndexC{API: "v1", NoEntries: true, Queries: []c20IQuery{{"a", ""}}, MergeFrom: good}},
+		// chart names without a usable version: `e: []`, only nulls, only entries without metadata, only
+		// invalid ones — loadIndex leaves an empty (non-nil) list, which search.Index.AddRepo must skip
+		c20Case{Kind: "index", Index: &c20IndexC{API: "v1", Names: []c20IName{
+			{Name: "e", Entries: []c20IEntry{}}, {Name: "n", Entries: []c20IEntry{{Kind: "null"}, {Kind: "null"}}},
+			{Name: "m", Entries: []c20IEntry{{Kind: "nometa"}}}, {Name: "i", Entries: []c20IEntry{m("i", "not-semver"), {Kind: "meta", Name: "", Version: "1.0.0"}}},
+			{Name: "z", Null: true}, {Name: "a", Entries: []c20IEntry{m("a", "1.0.0"), m("a", "1.0.0"), m("a", "2.0.0")}}},
+			Queries: []c20IQuery{{"e", ""}, {"n", ""}, {"a", ""}}}},
 		// no apiVersion: an error, after the entries were processed
 		c20Case{Kind: "index", Index: &c20IndexC{API: "", Names: []c20IName{{Name: "a", Entries: []c20IEntry{{Kind: "null"}, m("a", "1.0.0"), {Kind: "nometa"}}}}}},
 		// metadata invalid outside name/version; the skippable duplicate-dependency error hides a later null dependency
@@ -189,6 +200,16 @@ func c20GenIndexOne(r *rand.Rand, small bool) *c20IndexC {
 			continue
 		}
 		ne := r.Intn(6)
+		if r.Intn(8) == 0 { // a name left without any usable version
+			for k := 0; k < r.Intn(3); k++ {
+				n.Entries = append(n.Entries, []c20IEntry{{Kind: "null"}, {Kind: "nometa"}, {Kind: "meta", Name: n.Name, Version: "not-semver"}, {Kind: "meta", Name: "", Version: "1.0.0"}}[r.Intn(4)])
+			}
+			if small {
+				n.Entries = nil
+			}
+			c.Names = append(c.Names, n)
+			continue
+		}
 		usedBad := map[string]bool{}
 		for k := 0; k < ne; k++ {
 			switch x := r.Intn(10); {
@@ -301,6 +322,20 @@ func c20ExecIndex(c *c20IndexC) c20Obs {
 			return g
 		}
 		out.Gets = gets()
+		where = "search.Index.AddRepo"
+		si := search.NewIndex()
+		si.AddRepo("repo", idx, false)
+		sa := search.NewIndex()
+		sa.AddRepo("repo", idx, true)
+		out.Search, out.SearchN = "ok", [2]int{len(si.All()), len(sa.All())}
+		where = "search.Index.Search"
+		for _, x := range []*search.Index{si, sa} {
+			res, _ := x.Search("a", 25, false)
+			search.SortScore(res)
+			res, _ = x.Search("^[a-c].*", 25, true)
+			search.SortScore(res)
+			x.Search("(", 25, true)
+		}
 		where = "IndexFile.SortEntries"
 		idx.SortEntries()
 		if c.MergeFrom != nil {
@@ -458,8 +493,12 @@ func c20CoqIndex(c *c20IndexC, obs c20Obs) string {
 		}
 	}
 	cls := obs.Class
-	return fmt.Sprintf("CIndex (mkIO %s %s %s) %s (mkRaw %s %s) %s %s (mkIobs %s %s %s %s)",
+	srch := "None"
+	if o.Search != "" {
+		srch = fmt.Sprintf("(Some (%s, %d, %d))", c20Cls(o.Search), o.SearchN[0], o.SearchN[1])
+	}
+	return fmt.Sprintf("CIndex (mkIO %s %s %s) %s (mkRaw %s %s) %s %s (mkIobs %s %s %s %s %s)",
 		c20CoqStrs(obs.Extra["semver_ok"]), c20CoqStrs(obs.Extra["constraints_ok"]), c20CoqPairs(obs.Extra["check"]),
 		hx.CoqList(bad), hx.CoqStr(c.API), es, hx.CoqList(qs), merge,
-		c20Cls(cls), c20CoqLeft(o.Left), c20CoqGets(o.Gets), mobs)
+		c20Cls(cls), c20CoqLeft(o.Left), c20CoqGets(o.Gets), mobs, srch)
 }
